@@ -22,7 +22,7 @@ ASSUMPTIONS = ["streams are re-created with the same seed in construct_model (no
                "the second replication uses the same model object and the same replication settings"]
 
 HIST = ["fresh", "step", "pause", "bounded", "ended", "fault", "cleanup", "init_while_running", "ended_twice", "end_replication",
-        "init_while_starting", "touched", "other_model"]
+        "init_while_starting", "touched", "other_model", "longer_before"]
 
 
 def plan(tier):
@@ -33,7 +33,7 @@ def plan(tier):
 
 def gen_case(rng, tier, i):
     from vlib.proggen import gen_program, add_stats, add_streams
-    clock = ["float", "float", "duration", "int"][i % 4]
+    clock = ["float", "float", "duration", "int"][(i // len(HIST)) % 4]      # every history meets every clock
     prog = gen_program(rng, clock=clock, n_events=rng.randint(4, 25), with_bad=False)
     if rng.random() < 0.85:
         add_stats(rng, prog, watch=False)
@@ -84,6 +84,14 @@ def run_case(case, ctx):
             return
         want = _observe_replication(fresh, 0, 0)
         # ---- prior history on the simulator under test
+        normal = a.replication
+        if hist == "longer_before":
+            # the earlier replication had a three times longer run length (a pilot run): its clock ends beyond the end
+            # of the replication that is initialised next
+            from pydsol.core.experiment import SingleReplication
+            from vlib.simharness import time_value
+            r = prog["rep"]
+            a.replication = SingleReplication("pilot", time_value(prog, r["start"]), time_value(prog, r["warmup"]), time_value(prog, r["length"]) * 3)
         out = a.cmd("initialize")
         if out != "ok":
             ctx.viol(f"first-initialize-raises:{out}", where)
@@ -98,6 +106,14 @@ def run_case(case, ctx):
             b = start + (case["cut"] % max(1, int(length)))
             lit = [float(b), "s"] if prog["clock"] == "duration" else (int(b) if prog["clock"] == "int" else float(b))
             a.cmd("run_up_to_including", lit)
+        elif hist == "longer_before":
+            if case["k"] % 2:
+                a.cmd("start")
+            else:
+                b = start + 2 * length
+                a.cmd("run_up_to_including", [float(b), "s"] if prog["clock"] == "duration" else b)
+            a.wait_quiescent(20)
+            a.replication = normal
         elif hist in ("ended", "ended_twice"):
             a.cmd("start")
         elif hist == "fault":
